@@ -2,9 +2,9 @@
 # usage: tools/mutant.sh PROP file 'sed-expression'   -> runs the check on a scratch copy of /repo with the mutation
 set -u
 PROP=$1; FILE=$2; EXPR=$3
-D=$(mktemp -d /tmp/${PYVC_WORKER:-mut}-XXXXXX)
-cp -r /repo/pydsdl $D/
+D=$(mktemp -d /tmp/${PYVC_WORKER:-mut}-mut.XXXXXX)
+cp -r ${MUTANT_BASE:-/repo}/pydsdl $D/
 sed -i "$EXPR" $D/pydsdl/$FILE
-if diff -q /repo/pydsdl/$FILE $D/pydsdl/$FILE >/dev/null; then echo "MUTATION DID NOT APPLY"; rm -rf $D; exit 9; fi
-cd "$(dirname "$(readlink -f "$0")")/.." && PYVC_REPO=$D ./check $PROP 2>&1 | grep -v "^WARNING" | grep "VIOLATION\|UNDECIDED\|ENGINE-LIMIT\|BROKEN\|: [0-9]*/[0-9]* obl" | cut -c1-220 | head -${4:-6}
+if diff -q ${MUTANT_BASE:-/repo}/pydsdl/$FILE $D/pydsdl/$FILE >/dev/null; then echo "MUTATION DID NOT APPLY"; rm -rf $D; exit 9; fi
+cd "$(dirname "$0")/.." && PYVC_REPO=$D ./check $PROP 2>&1 | grep -v "^WARNING" | grep "VIOLATION\|UNDECIDED\|ENGINE-LIMIT\|BROKEN\|: [0-9]*/[0-9]* obl" | cut -c1-220 | head -${4:-6}
 rm -rf $D
